@@ -1,4 +1,5 @@
 """Concurrency / executor / allocator family: C05, C19, C20."""
+from . import srcgen
 from . import cs_conc
 
 
@@ -93,7 +94,8 @@ PROPS = {
             "note": "model fidelity is sampled; sync.Pool and the Go allocator are modelled as inputs (pool choice recovered from pointer "
                     "identity / backing-array addresses); concurrent programs are a supporting oracle-only stream",
             "technique": "Lean 4 proof (heap invariant by induction over op sequences) + differential correspondence"},
-        "lean": ["NbioVerif.Properties.C20"], "drivers": ["allocdrv"], "harness": ["halloc"],
+        "lean": ["NbioVerif.Properties.C20", srcgen.BRIDGE_ALLOC], "drivers": ["allocdrv"], "harness": ["halloc"],
+        "facts": [srcgen.src_facts],
         "runs": [ALLOC_RUN],
         "oracles": ["c20-"],
         "rule": "case = (allocator, MemPool sizes, program of 8-50 ops over up to 6 live handles); distinct by hash of (allocator, sizes, "
